@@ -562,18 +562,68 @@ func (c *Ctx) singleAccumulator(fn *ssa.Function, rule string) {
 		if k, isK := rv.(*ssa.Const); isK && k.IsNil() {
 			continue
 		}
-		n++
-		var acc ssa.Value
-		if call, isC := rv.(*ssa.Call); isC {
-			if sc := call.Call.StaticCallee(); sc != nil && sc.String() == "(*bytes.Buffer).Bytes" {
-				acc = call.Call.Args[0]
-			} else if bi, isB := call.Call.Value.(*ssa.Builtin); isB && bi.Name() == "append" {
-				acc = rootOf(call)
+		// an error return spilled through a result local (function with defers): nothing is handed out
+		if ld, isLd := rv.(*ssa.UnOp); isLd {
+			if al, isAl := ld.X.(*ssa.Alloc); isAl {
+				nilSpill := false
+				for _, ins := range b.Instrs {
+					if st, isSt := ins.(*ssa.Store); isSt && st.Addr == ssa.Value(al) {
+						if k, isK := st.Val.(*ssa.Const); isK && k.IsNil() {
+							nilSpill = true
+						}
+					}
+				}
+				if nilSpill {
+					continue
+				}
 			}
 		}
-		if acc == nil {
-			acc = rootOf(rv)
+		n++
+		var accOf func(v ssa.Value, depth int) ssa.Value
+		accOf = func(v ssa.Value, depth int) ssa.Value {
+			if depth > 4 {
+				return v
+			}
+			if call, isC := v.(*ssa.Call); isC {
+				if sc := call.Call.StaticCallee(); sc != nil && sc.String() == "(*bytes.Buffer).Bytes" {
+					return call.Call.Args[0]
+				}
+				if bi, isB := call.Call.Value.(*ssa.Builtin); isB && bi.Name() == "append" {
+					return rootOf(call)
+				}
+			}
+			// a result spilled into a local because of a defer: what was stored there
+			if ld, isLd := v.(*ssa.UnOp); isLd {
+				if al, isAl := ld.X.(*ssa.Alloc); isAl {
+					var got ssa.Value
+					// prefer the store made in the returning block itself (each return spills its own value)
+					for _, ins := range b.Instrs {
+						if st, isSt := ins.(*ssa.Store); isSt && st.Addr == ssa.Value(al) {
+							if k, isK := st.Val.(*ssa.Const); !isK || !k.IsNil() {
+								return accOf(st.Val, depth+1)
+							}
+						}
+					}
+					for _, ref := range *al.Referrers() {
+						if st, isSt := ref.(*ssa.Store); isSt && st.Addr == ssa.Value(al) {
+							if k, isK := st.Val.(*ssa.Const); isK && k.IsNil() {
+								continue
+							}
+							x := accOf(st.Val, depth+1)
+							if got != nil && got != x {
+								return v
+							}
+							got = x
+						}
+					}
+					if got != nil {
+						return got
+					}
+				}
+			}
+			return rootOf(v)
 		}
+		acc := accOf(rv, 0)
 		for _, wr := range writes {
 			if reach(wr.ins.Block(), b) && wr.acc != acc {
 				// a slice of the input returned directly has no writes of its own
